@@ -477,6 +477,14 @@ func ruleFetchFailsOnlyOnTransport(w *World, r *Run, rule string) {
 						}
 						return false
 					})
+					// a cap on the size of what was read is about the exchange too (an oversized answer)
+					if t := last.T; t.Kind == "binop" && t.Name == "<" && len(t.Args) == 2 {
+						for i := 0; i < 2; i++ {
+							if _, isConst := constVal(t.Args[i]); isConst && t.Args[1-i].Kind == "len" {
+								cause = true
+							}
+						}
+					}
 				}
 				if cause {
 					continue
